@@ -361,6 +361,9 @@ def run(ctx):
              "called: the functions the data passes through (event.fire, both subsystems' run wrappers, the interpreter's call) take their own parameters positional-only", floor=3)
     from .c03 import kwargs_namespace_rule
     kwargs_namespace_rule(ctx, program, "R08.11", only=("function.py::Function.event_fire", "trigger.py::TrigInfo.call_action.do_func_call", "eval.py::AstEval.call_func"))
+    ctx.rule("R08.15", "legacy shared sources: a registration that Home Assistant refuses leaves no entry behind (an empty entry makes every later subscriber of that id skip the "
+             "registration and wait for messages that never come)", floor=3)
+    refused_registration_table(ctx, program, "R08.15")
     ctx.rule("R08.8", "the variables a filter expression sees are those of the current message only: a key carried by an earlier message and absent from this one is "
              "not visible (both subsystems' evaluation helpers)", floor=2)
     filter_scope_rule(ctx, program, "R08.8")
@@ -611,3 +614,35 @@ def webhook_release_table(ctx, program, rid):
         ctx.check(bad is None, rid, f"{cls_uid}.stop", f"two decorators of one webhook id, stopped {order[0]} then {order[1]}",
                   msg=f"WebhookTriggerDecorator, two decorators of the id 'hook1' started one after the other, stopped {order[0]} then {order[1]}: {bad}", key=f"webhook release {order}",
                   node=program.func(f"{cls_uid}.stop"), rel="decorators/webhook.py")
+
+
+class _RefusingListenerPolicy(_ListenerPolicy):
+    """The registration with Home Assistant is refused (id owned by somebody else, invalid methods, MQTT not set up)."""
+
+    def call(self, interp, node, fname, fval, args, kwargs, cfg, out):
+        if fname and fname.split(".")[-1] in ACQUIRE_CALLS:
+            out.add("raise", cfg.set("$exc", ExcV("ValueError", "registration refused")))
+            return []
+        return super().call(interp, node, fname, fval, args, kwargs, cfg, out)
+
+
+def refused_registration_table(ctx, program, rid):
+    """notify_add when the registration fails: the subscriber table must not keep an (empty) entry - later subscribers of that id would skip the registration and never receive anything."""
+    for cls, rel in LISTENER_CLASSES:
+        uid = f"{rel}::{cls}.notify_add"
+        fn = program.func(uid)
+        params = [a.arg for a in fn.args.args]
+        pol = _RefusingListenerPolicy(program, may_raise_all=False, cancel=False)
+        heap = {f"{cls}.notify": DictV([(Const("u"), _set("q2"))]), f"{cls}.notify_remove": DictV([(Const("u"), Sym(("handle", "u")))]), f"{cls}.hass": Sym(("hass",))}
+        out = run_flow(program, uid, pol, args={"cls": ClassV(cls), params[1]: Const("t"), "queue": Const("q0")}, heap=heap)
+        ex = exits(out)
+        bad = None
+        for k, c, d in ex:
+            tab = c.heap.get(f"{cls}.notify")
+            keys = sorted(kk.v for kk, _ in tab.items) if isinstance(tab, DictV) else repr(tab)
+            if k != "raise":
+                bad = f"{d}: the refusal does not reach the caller"
+            elif keys != ["u"]:
+                bad = f"the subscriber table keeps the entries {keys} (specified ['u']): the next subscriber of 't' finds an entry, skips the registration and never receives a message; its clean-up then fails"
+        ctx.check(bool(ex) and bad is None, rid, uid, f"{cls}.notify_add: registration refused", msg=f"{cls}.notify_add('t', q0) when the registration with Home Assistant fails: {bad or 'no exit'}",
+                  key=f"{cls} add refused", node=fn, rel=rel)
